@@ -69,6 +69,13 @@ def make_cases(ctx, rng):
         if mode in ("stream", "mt") or (mode == "dict" and rng.random() < 0.3):
             c["ops"] = rand_ops(rng, len(x))
         cases.append(c)
+    # corpus: lengths above 65535 (long-length escape) through the block splitter, one-shot and streaming
+    for j, (lvl, sz, mode) in enumerate(((16, 131072, "oneshot"), (19, 131072, "oneshot"), (19, 200000, "stream"), (22, 262144, "oneshot"))):
+        x = codec.gen_input(rng, "longlen", sz)
+        c = dict(id="L%d" % j, kind="longlen", x=x, params={"level": lvl, "checksum": 1, "blockSplitter": 1}, mode=mode, dict=None, dictmode="-")
+        if mode == "stream":
+            c["ops"] = rand_ops(rng, len(x))
+        cases.append(c)
     return cases
 
 
